@@ -454,6 +454,13 @@ func (x *Exec) callContract(fi *FuncInfo, con *Contract, recv *Val, args []Val, 
 		pa.post = Val{T: c.freshConst("post_"+pa.name, c.sortOf(pre.Ty)), Ty: pre.Ty}
 		x.assumeWF(st, pa.post)
 		names[pa.name] = pa.post
+		// … also under the name the parameter had when the lock was written
+		for oldName, obj := range x.g.renameMap(fi) {
+			if obj.Name() == pa.name {
+				oldNames[oldName] = pre
+				names[oldName] = pa.post
+			}
+		}
 	}
 	// postconditions
 	penv := &Env{contract: true, names: names, oldNames: oldNames, pkg: fi.Pkg.Types, old: pre}
@@ -647,6 +654,14 @@ func (x *Exec) callTable(n *ast.CallExpr, ix *ast.IndexExpr, st *State, env *Env
 			names := map[string]Val{}
 			for i := 0; i < fi.Sig.Params().Len(); i++ {
 				names[fi.Sig.Params().At(i).Name()] = args[i]
+			}
+			// the entry's contract may still use the names its parameters had when the lock was written
+			for oldName, obj := range x.g.renameMap(fi) {
+				for i := 0; i < fi.Sig.Params().Len() && i < len(args); i++ {
+					if fi.Sig.Params().At(i) == obj {
+						names[oldName] = args[i]
+					}
+				}
 			}
 			cenv := &Env{contract: true, names: names, pkg: fi.Pkg.Types}
 			x.c.inContract++
